@@ -709,24 +709,24 @@ def _multi_class(m):
 def drv_space_size(tier, seed):
   """space_size == number of members, over an exhaustive family of specs."""
   if tier == 'quick':
-    w, nmax, kmax, depth, cap = 5, 3, 3, 3, 600
+    w_all, w_rand, nmax, budget = 3, 5, 3, 160
   else:
-    w, nmax, kmax, depth, cap = 6, 4, 3, 3, 3000
+    w_all, w_rand, nmax, budget = 4, 5, 4, 1500
   rec = Recorder(PROP, 'space_size equals the brute-force member count',
-                 scope=f'all Choices specs of weight<={w} (#candidate slots), '
-                       f'n<={nmax}, k<={kmax}, every distinct/sorted '
-                       f'combination at every level, depth<={depth}, plus '
-                       f'leaf family n<=5,k<=4 and seeded random deep specs')
+                 scope=f'every Choices spec of weight<={w_all} (weight = number '
+                       f'of candidate slots in the whole tree; n<={nmax}, k<=3, '
+                       f'every distinct/sorted combination at every level, '
+                       f'candidate sub-spaces with 1 or 2 elements, depth<=3), '
+                       f'a seeded sample of {budget} specs of weight<={w_rand}, '
+                       f'the leaf family n<=5,k<=4, hand-picked multi-element '
+                       f'roots, float/custom specs')
   r = rng(seed, 'c11.size')
-  specs = list(leaf_family(5, 4))
-  specs += gen_dps(w, nmax, kmax, depth)
-  # roots with several elements
-  specs += handpicked_roots()
-  budget = 700 if tier == 'quick' else 12000
-  head = specs[:len(leaf_family(5, 4))]
-  rest = specs[len(head):]
-  if len(rest) > budget:
-    rest = r.sample(rest, budget)
+  head = list(leaf_family(5, 4)) + handpicked_roots()
+  head += gen_dps(w_all, nmax, 3, 3)
+  seen = set(head)
+  rest = [m for m in gen_dps(w_rand, nmax, 3, 3)
+          if m not in seen and count_members(m) <= 5000]
+  rest = r.sample(rest, min(budget, len(rest)))
   for m in head + rest:
     want = count_members(m)
     spec = build(m)
